@@ -456,7 +456,15 @@ def replay(case):
 
 def _has_constant_tensor_attr(case):
     m = optcommon.model_from_json(case["model"])
-    return case.get("api") == "optimize" and any(n.op_type == "Constant" and any(a.name == "value" for a in n.attribute) for n in m.graph.node)
+    def walk(nodes):
+        for n in nodes:
+            yield n
+            for a in n.attribute:
+                if a.type == onnx.AttributeProto.GRAPH:
+                    yield from walk(a.g.node)
+
+    nodes = list(walk(m.graph.node)) + [n for f in m.functions for n in walk(f.node)]  # (main graph, subgraphs, function bodies)
+    return case.get("api") == "optimize" and any(n.op_type == "Constant" and any(a.name == "value" for a in n.attribute) for n in nodes)
 
 
 REGIONS = {
